@@ -161,7 +161,7 @@ def _r2_r3(ctx):
                       fd.qname, "every written operand scanned")
     # destinations scanned: destination + src_dst
     outer = [l for l in C.enclosing_loops(loop) if isinstance(l, ast.For)]
-    roles = sorted(C.str_consts(outer[-1].iter)) if outer else []
+    roles = sorted(C.str_consts(C.flow_of(fd).subst(outer[-1].iter))) if outer else []
     ctx.check(roles == ["destination", "src_dst"], "R2", "producers' written operands = destination + src_dst", fd.where(),
               "find_depending starts from the roles %s" % roles, fd.qname, "producer roles")
     flag_threading(ctx, "R3")
